@@ -35,6 +35,9 @@ func (u *Unit) intrinsic(fr *Frame, st *State, fn *ssa.Function, args []Val, whe
 	if fn.Pkg != nil {
 		pkgPath = fn.Pkg.Pkg.Path()
 	}
+	if !strings.HasPrefix(pkgPath, "go.uber.org/zap") {
+		u.assumedUsed["library "+name]++
+	}
 	switch name {
 	case "(*sync.RWMutex).Lock", "(*sync.Mutex).Lock":
 		u.lockOp(fr, st, args[0], 2, where)
